@@ -133,6 +133,14 @@ func propC19(r *Run) {
 					cur := a.st.dir.BaseDir
 					if cur != target.BaseDir {
 						w.populateDirCopy(cur, target.BaseDir)
+						if r.Choose("reload-target-invalid", 3) == 0 {
+							// the new directory fails the consistency check: the reload is refused, the agent -
+							// and therefore every hook - stays with the directory it has
+							w.fs.Put(target.BaseDir+"/README", []byte("not a hash file"), 0o600)
+							r.Count("fault:reload-refused")
+						} else {
+							w.fs.Delete(target.BaseDir + "/README")
+						}
 					}
 					w.fs.Put(a.cfgPath, []byte(target.YAML()), 0o600)
 					simsignal.Raise(syscall.SIGHUP, -1)
